@@ -3,6 +3,7 @@
 package tally
 
 import (
+	"io"
 	"sync"
 	"time"
 
@@ -220,4 +221,85 @@ func VerifC09BucketCacheCollide() {
 	verifrt.Assert(c09CollidePrefix+".a-keeps-own-bounds", verifrt.And(len(ha.buckets) == 3, verifrt.And(ha.buckets[0].durationUpperBound == a, ha.buckets[1].durationUpperBound == b)))
 	verifrt.Assert(c09CollidePrefix+".b-keeps-own-bounds", verifrt.And(len(hb.buckets) == 3, verifrt.And(hb.buckets[0].durationUpperBound == c, hb.buckets[1].durationUpperBound == d)))
 	verifrt.Reach("c09.cache.collide.end")
+}
+
+// VerifC09ReacquireClosed: a closed child scope that no pass has swept yet is requested again
+// by two goroutines at once: both get the same live scope and nothing recorded is lost.
+func VerifC09ReacquireClosed() {
+	rec := &lockedReporter{}
+	root := newRootScope(ScopeOptions{Reporter: rec, OmitCardinalityMetrics: true, registryShardCount: 1}, 0)
+	v0, v1, v2 := verifrt.Int64("inc"), verifrt.Int64("inc"), verifrt.Int64("inc")
+	verifrt.Assume(verifrt.And(v0 != 0, verifrt.And(v1 != 0, v2 != 0)))
+	s := root.SubScope("a")
+	s.Counter("x").Inc(v0)
+	s.(io.Closer).Close()
+	var got [2]Scope
+	var wg sync.WaitGroup
+	verifrt.Explore(2)
+	wg.Add(2)
+	go func() { defer wg.Done(); got[0] = root.SubScope("a"); got[0].Counter("x").Inc(v1) }()
+	go func() { defer wg.Done(); got[1] = root.SubScope("a"); got[1].Counter("x").Inc(v2) }()
+	wg.Wait()
+	verifrt.StopExplore()
+	verifrt.Assert("c09.reacquire.same-identity-same-scope", got[0].(*scope) == got[1].(*scope))
+	verifrt.Assert("c09.reacquire.live", !got[0].(*scope).closed.Load())
+	root.reportRegistry()
+	root.reportRegistry()
+	verifrt.Assert("c09.reacquire.everything-delivered-once", sumNamed(&rec.vReporter, "a.x") == v0+v1+v2)
+	verifrt.Reach("c09.reacquire.end")
+}
+
+// VerifC09CounterSanitized: concurrent first use of a counter whose name the sanitizer rewrites.
+func VerifC09CounterSanitized() {
+	crec := &vCachedReporter{}
+	root := newRootScope(ScopeOptions{CachedReporter: crec, OmitCardinalityMetrics: true, registryShardCount: 1,
+		SanitizeOptions: &SanitizeOptions{
+			NameCharacters:       ValidCharacters{Ranges: []SanitizeRange{{'a', 'z'}}},
+			KeyCharacters:        ValidCharacters{Ranges: []SanitizeRange{{'a', 'z'}}},
+			ValueCharacters:      ValidCharacters{Ranges: []SanitizeRange{{'a', 'z'}}},
+			ReplacementCharacter: DefaultReplacementCharacter,
+		}}, 0)
+	v1, v2 := verifrt.Int64("inc"), verifrt.Int64("inc")
+	verifrt.Assume(verifrt.And(v1 != 0, verifrt.And(v2 != 0, v1+v2 != 0)))
+	kind := verifrt.Choose("kind", 3)
+	var got [2]interface{}
+	var wg sync.WaitGroup
+	verifrt.Explore(2)
+	for i := 0; i < 2; i++ {
+		wg.Add(1)
+		go func(i int) {
+			defer wg.Done()
+			v := v1
+			if i == 1 {
+				v = v2
+			}
+			switch kind {
+			case 0:
+				c := root.Counter("req-count")
+				c.Inc(v)
+				got[i] = c
+			case 1:
+				g := root.Gauge("req-count")
+				g.Update(1)
+				got[i] = g
+			case 2:
+				got[i] = root.Timer("req-count")
+			}
+		}(i)
+	}
+	wg.Wait()
+	verifrt.StopExplore()
+	verifrt.Assert("c09.sanitized.same-identity-same-object", got[0] == got[1])
+	allocs := 0
+	for _, a := range crec.allocs {
+		if a.name == "req_count" {
+			allocs++
+		}
+	}
+	verifrt.Assert("c09.sanitized.at-most-one-allocate-per-identity", allocs == 1)
+	root.reportRegistry()
+	if kind == 0 {
+		verifrt.Assert("c09.sanitized.everything-delivered", sumNamedCached(crec, "req_count") == v1+v2)
+	}
+	verifrt.Reach("c09.sanitized.end")
 }
